@@ -112,6 +112,10 @@ def build_pool(seed):
         for q in ['cuesta 1,5 euros', 'cuesta 1.5 euros', 'pesa 2,5 kg', 'mide 3.25 metros', 'tiene 10 años', '37,5 grados', '1.234,5', '1,234.5']:
             for m in ('currency', 'dimension', 'age', 'temperature', 'number'):
                 add(m, q, c)
+    for c in ('en-us', 'fr-fr', 'es-es', 'es-mx', 'pt-br', 'de-de', 'it-it', 'nl-nl'):
+        for q in ['1.234,56', '1,234.56', '1,234', '1.234', '12,345', '-12.345', '1,234,567', '1.234.567', '12,5%', '12.5%']:
+            add('number', q, c)
+            add('percentage', q, c)
     for q in ['yes', 'not ok', 'İ know yes']:
         add('boolean', q, 'en-us')
     # 5. options of the date-time recogniser
